@@ -60,6 +60,8 @@ def _foreign_comment():
 
 
 OLD_SAME_HOLDER = bool(PARAMS.get("old_same_holder", False))
+OLD_KIND = PARAMS.get("old_kind", "full")  # full (copyright+licence+contributor) | contributor-only | trailing-ws
+OLD_F = "Old Contributor"
 
 
 def old_header(n_holders=1):
@@ -67,8 +69,16 @@ def old_header(n_holders=1):
         lines = {"SPDX-FileCopyrightText: 2016 - 2018 Jane Doe"}
     else:
         lines = {OLD_C} | {f"SPDX-FileCopyrightText: 20{i % 90 + 10} Holder Number {i} <holder{i}@example.org>" for i in range(n_holders - 1)}
-    info = ReuseInfo(spdx_expressions={ex._LICENSING.parse(OLD_L)}, copyright_lines=lines)
-    return hd._create_new_header(info, style=STYLE, force_multi=MULTI)
+    if OLD_KIND == "contributor-only":
+        info = ReuseInfo(contributor_lines={OLD_F})
+    else:
+        info = ReuseInfo(spdx_expressions={ex._LICENSING.parse(OLD_L)}, copyright_lines=lines, contributor_lines={OLD_F})
+    out = hd._create_new_header(info, style=STYLE, force_multi=MULTI)
+    if OLD_KIND == "trailing-ws":
+        # the same header as a person (or an editor) may have left it: trailing blanks / tabs on some lines
+        ls = out.split("\n")
+        out = "\n".join(l + ("  " if i % 2 == 0 else "\t") if 0 < i < len(ls) - 1 or len(ls) <= 2 else l for i, l in enumerate(ls))
+    return out
 
 
 def line_of(kind, i):
@@ -370,6 +380,15 @@ def keep_story(k0, k1, k2, k3, final_nl):
     if fit is None:
         return "a line outside the header block was changed, dropped or reordered", items, text, out, {"input_nonblank": _nonblank(lines), "output_nonblank": got}
     i, j, kept = fit
+    # what precedes the header in the input (everything up to the replaced block; or the shebang run when the header
+    # goes to the top) must precede it in the output unchanged, apart from trailing white space next to the header
+    rem_used = removable if [l for x, l in enumerate(lines) if x not in removable] == kept else set()
+    if rem_used:
+        before_in = "\n".join(lines[: min(rem_used)])
+    else:
+        before_in = "\n".join(lines[x] for x in sorted(shebang_lines))
+    if before_in.strip() and not out.startswith(before_in.rstrip()):
+        return "text before the header was changed (leading blank lines / indentation)", items, text, out, {"before": before_in}
     inserted = got[i : len(got) - j]
     info = read("\n".join(inserted))
     marker_ok = info is not None and ((NEW_C in info[0]) if REQUEST in ("full", "copyright-only") else (NEW_L in info[1]) if REQUEST == "licence-only" else (NEW_F in info[2]))
